@@ -73,9 +73,9 @@ CHECKS = {
              "judged against the declarative definitions IsTiling, OnBoundaries, TokenTexts, Lossless, Hull and SpansInText. Texts: "
              "repository corpus, character- and token-level mutants, arbitrary Unicode strings, rendered token sequences. The "
              "design-level Lossless/Contiguous invariants of the tree-building engine are model-checked by C12 over every token "
-             "sequence of its families. The lexer DFA itself is not modelled (DESIGN.md 1.4).",
-        note="Trusted: TLC, the extraction of observations by the harness (oalv parse/compile). The generated lexer is observed, not modelled, so this is trace validation against a monitor specification rather than exhaustive model checking of a lexer design.",
-        technique="trace validation: observations of real lexer/parser/compiler runs judged by a TLA+ monitor specification (TLC) + design-level tree invariants model-checked in Peg.tla",
+             "sequence of its families. The lexer DFA itself is not modelled (DESIGN.md 1.4). Added since: Lex.tla, a reference lexer (the token patterns of lexer.rs as data, maximal munch, literal before regular expression, a lexical error covers what the automaton consumed before it got stuck, two named deviations of the generated automaton: no way back out of an opened block comment, two-character chunks read atomically); TLC checks Tiles, Genuine, Maximal, ErrorsJustified on every text of up to 4 (quick) / 5 (thorough) characters over six sub-alphabets and the real lexer gives the same tokens and error spans on all of them (637 114 texts in the thorough tier).",
+        note="Trusted: TLC, the extraction of observations by the harness (oalv parse/compile). The lexer has a reference specification with exhaustive small-scope conformance; beyond that scope it is observed through the monitor.",
+        technique="TLA+ reference lexer with exhaustive small-scope replay on the real lexer + trace validation: observations of real lexer/parser/compiler runs judged by a TLA+ monitor specification (TLC) + design-level tree invariants model-checked in Peg.tla",
     ),
     "C04": dict(
         design_ref="DESIGN.md 3.9, 4 (C04)",
